@@ -216,6 +216,15 @@ Theorem C09_nodes_between_exact : forall s doc from to,
 Proof. exact nodes_between_exact. Qed.
 Print Assumptions C09_nodes_between_exact.
 
+(* ... in document order: every listed node is followed only by its own descendants (then it has children, they begin after it
+   and end within it) and by nodes that begin at or after its end ([Ord], Proofs/RemoveMarkCovers.v) *)
+From PM Require Import Proofs.RemoveMarkCovers.
+Theorem C09_nodes_between_in_document_order : forall s doc from to vs,
+  wfw s doc -> to <= frag_size s (node_content doc) ->
+  nodes_between_node s (fun _ => true) doc from to 0 = Ok vs -> Ord s vs.
+Proof. exact nodes_between_ord. Qed.
+Print Assumptions C09_nodes_between_in_document_order.
+
 (* Node.text_between(from, to, block_separator, leaf_text), for a non-empty range: the text is what one reads off the tokens of
    the range, left to right ([tbt]): the unit of every character token (one per UTF-16 code unit), the leaf text for every
    leaf token, and the block separator in front of every block node that OPENS inside the range - unless a separator was
